@@ -241,8 +241,12 @@ func runRV(c *mon.Case, r *rand.Rand) {
 		for i := 0; i+4 <= len(d); i += 4 {
 			copy(d[i:], rvgen.LE(rvgen.Word(r, defs[r.Intn(len(defs))])))
 		}
+		zeroTail := r.Intn(2) == 0 // truncated tails of zero bytes (padding) and of garbage
 		for i := len(d) &^ 3; i < len(d); i++ {
 			d[i] = byte(r.Intn(256))
+			if zeroTail {
+				d[i] = 0
+			}
 		}
 	}
 	if r.Intn(3) == 0 { // undecodable word at first / middle / last position of some block
@@ -252,11 +256,22 @@ func runRV(c *mon.Case, r *rand.Rand) {
 		var w uint32
 		for {
 			w = r.Uint32()
+			switch r.Intn(4) {
+			case 0:
+				w = 0 // the defined illegal instruction; zero padding
+			case 1:
+				w = 0xffffffff
+			}
 			if _, ok := refrv.Decode(cfg, w); !ok {
 				break
 			}
 		}
 		copy(b.data[4*pos:], rvgen.LE(w))
+		if w == 0 && r.Intn(2) == 0 { // everything up to the end of the block is zero
+			for i := 4 * pos; i < len(b.data); i++ {
+				b.data[i] = 0
+			}
+		}
 	}
 	var want []expIns
 	fail := false
